@@ -1,6 +1,7 @@
 import ChfVerif.Lemmas.Convert
 import ChfVerif.Lemmas.ChargingSids
 import ChfVerif.Lemmas.ChargingRecords
+import ChfVerif.Lemmas.ChargingSessions
 import ChfVerif.Model.RecordBer
 /-
   C02 — reported usage is recorded exactly once, in the right session's CDR; the opening timestamp
@@ -195,6 +196,40 @@ theorem C02_exactly_once (guard : SplitGuard) (supi : Bytes) (ops : List Op)
       (contributedRun guard supi { accts := accts, tariffs := tariffs } ops) := by
   have h := (usage_run guard supi ops { accts := accts, tariffs := tariffs } (allIdx_init accts tariffs)).1
   simpa [usageOf, findUe] using h
+
+/-- C02 (per session, in report order — the full statement): whatever the history, the usage entries held by the records
+    that carry session reference `sid` of subscriber `supi` — read in record order and, inside a record, in list order —
+    are exactly, and in exactly this order, the usage entries of the accepted create that returned `sid` followed by those
+    of every accepted update and release addressed to `sid`, in the order the requests were made: nothing is lost,
+    duplicated, reordered, or recorded under another session's reference or another subscriber, across any number of
+    record splits decided by any size guard. (`sid ≠ ""`: one-time events open no session.) -/
+theorem C02_session_in_order (guard : SplitGuard) (supi sid : Bytes) (hsid : sid ≠ []) (ops : List Op)
+    (accts : Abmf.Store) (tariffs : List Rating.Tariff) :
+    sessUsage (run guard { accts := accts, tariffs := tariffs } ops) supi sid =
+      contribSessRun guard supi sid { accts := accts, tariffs := tariffs } ops := by
+  have h := (sess_run guard supi sid hsid ops _ (sessInv_init accts tariffs)).1
+  simpa [sessUsage, findUe] using h
+
+/-- the bookkeeping invariant behind it, for every reachable state: the session map has no duplicate keys, every live
+    reference designates the LAST record carrying it, every reference found in a record was issued with a smaller
+    sequence number than the counter -/
+theorem C02_session_invariant (guard : SplitGuard) (ops : List Op) (accts : Abmf.Store) (tariffs : List Rating.Tariff) :
+    SessInv (run guard { accts := accts, tariffs := tariffs } ops) :=
+  (sess_run guard [] [0] (by decide) ops _ (sessInv_init accts tariffs)).2
+
+/-- non-vacuity: two interleaved sessions of one subscriber, a new record started at EVERY update (guard always true),
+    a rejected update in between: each session's contribution is its own reports, in order -/
+example :
+    let supiX : Bytes := [105, 109, 115, 105, 45, 49]
+    let u : Int → Usage := fun n => { rg := 1, req := none, upf := [117], cs := [⟨2, n, 0, n, 0, n⟩] }
+    let rq : Bytes → List Usage → Req := fun nf us =>
+      { supi := supiX, nf := some nf, cid := 1, seq := 0, uri := false, one := false, trigs := [], usages := us }
+    let a := sessionId supiX [97] 0
+    let b := sessionId supiX [98] 1
+    let ops : List Op := [.create (rq [97] [u 1]), .create (rq [98] []), .update a (rq [97] [u 2]), .update b (rq [98] [u 3]),
+      .update [1, 2] (rq [97] [u 9]), .release a (rq [97] [u 4, u 5])]
+    contribSessRun (fun _ _ => true) supiX a {} ops = toRecUsage [u 1, u 2, u 4, u 5] ∧
+    contribSessRun (fun _ _ => true) supiX b {} ops = toRecUsage [u 3] := by decide
 
 /-- … and every session reference keeps designating an existing record -/
 theorem C02_references_valid (guard : SplitGuard) (ops : List Op) (accts : Abmf.Store) (tariffs : List Rating.Tariff) :
